@@ -19,6 +19,7 @@ type c09P struct {
 	N         int    // outside Callback threads cb0..cbN-1, each with its own context
 	Cancel    bool   // a thread cancels the context of cb0 at an arbitrary moment
 	Script    string // peer's answer: inorder, reverse, batch, dup, unknown, error, late, none
+	ErrForm   bool   // the stray reply (duplicate / unsolicited / late) is an error object instead of a result
 	PeerCall  bool   // the peer has its own gated call with id 1 in flight (callback ids also start at 1)
 	NoteWaits bool   // a notification handler awaits a callback while dispatch is parked behind it
 	Stop      bool   // Stop racing with the callbacks
@@ -34,6 +35,9 @@ func (p c09P) name() string {
 		f = append(f, "push-disabled")
 	}
 	f = append(f, fmt.Sprintf("callbacks=%d script=%s", p.N, p.Script))
+	if p.ErrForm {
+		f = append(f, "stray-replies-are-error-objects")
+	}
 	for _, kv := range []struct {
 		on bool
 		s  string
@@ -192,10 +196,18 @@ func c09Scenario(p c09P, b Bounds) *Scenario {
 					case "dup":
 						for _, c := range pend {
 							send(reply(c))
-							send(fmt.Sprintf(`{"jsonrpc":"2.0","id":%s,"result":"DUPLICATE"}`, c.id))
+							if p.ErrForm {
+								send(fmt.Sprintf(`{"jsonrpc":"2.0","id":%s,"error":{"code":-7,"message":"DUPLICATE"}}`, c.id))
+							} else {
+								send(fmt.Sprintf(`{"jsonrpc":"2.0","id":%s,"result":"DUPLICATE"}`, c.id))
+							}
 						}
 					case "unknown":
-						send(`{"jsonrpc":"2.0","id":99,"result":"UNSOLICITED"}`)
+						if p.ErrForm {
+							send(`{"jsonrpc":"2.0","id":99,"error":{"code":-7,"message":"UNSOLICITED"}}`)
+						} else {
+							send(`{"jsonrpc":"2.0","id":99,"result":"UNSOLICITED"}`)
+						}
 						for _, c := range pend {
 							send(reply(c))
 						}
@@ -208,7 +220,11 @@ func c09Scenario(p c09P, b Bounds) *Scenario {
 						vs.AwaitQuiescence()
 						vs.Note("quiet", "before-late")
 						for _, c := range pend {
-							send(reply(c))
+							if p.ErrForm {
+								send(fmt.Sprintf(`{"jsonrpc":"2.0","id":%s,"error":{"code":-7,"message":"LATE"}}`, c.id))
+							} else {
+								send(reply(c))
+							}
 						}
 					case "none":
 					}
@@ -737,6 +753,10 @@ func c09Scenarios(tier string) []*Scenario {
 	add(c09P{Push: true, N: 1, Script: "late", Cancel: true}, b2)
 	add(c09P{Push: true, N: 1, Script: "late", Cancel: true, PeerCall: true}, b2)
 	add(c09P{Push: true, N: 1, Script: "dup", PeerCall: true}, b2)
+	add(c09P{Push: true, N: 1, Script: "dup", ErrForm: true}, b2)
+	add(c09P{Push: true, N: 1, Script: "unknown", ErrForm: true}, b2)
+	add(c09P{Push: true, N: 1, Script: "late", Cancel: true, ErrForm: true}, b2)
+	add(c09P{Push: true, N: 1, Script: "late", Cancel: true, PeerCall: true, ErrForm: true}, b2)
 	add(c09P{Push: true, N: 0, Script: "inorder", NoteWaits: true}, b1)
 	add(c09P{Push: true, N: 0, Script: "inorder", HandlerCB: true}, b1)
 	add(c09P{Push: true, N: 1, Script: "inorder", Stop: true, AfterStop: true}, b2)
